@@ -740,10 +740,12 @@ class BaseProject(object, metaclass=ABCMeta):
         self.workflow.remove_absence_time_list(self.absence_time_list)
         self.organization.remove_absence_time_list(self.absence_time_list)
 
+        removed_step_count = 0
         for step_time in sorted(self.absence_time_list, reverse=True):
             if step_time < len(self.cost_list):
                 self.cost_list.pop(step_time)
-        self.time = self.time - len(self.absence_time_list)
+                removed_step_count += 1
+        self.time = self.time - removed_step_count
         self.absence_time_list = []
 
     def insert_absence_time_list(self, absence_time_list):
@@ -764,11 +766,14 @@ class BaseProject(object, metaclass=ABCMeta):
         self.workflow.insert_absence_time_list(new_absence_time_list)
         self.organization.insert_absence_time_list(new_absence_time_list)
 
+        inserted_absence_time_list = []
         for step_time in sorted(new_absence_time_list):
-            self.cost_list.insert(step_time, 0.0)
+            if step_time < len(self.cost_list):
+                self.cost_list.insert(step_time, 0.0)
+                inserted_absence_time_list.append(step_time)
 
-        self.time = self.time + len(new_absence_time_list)
-        self.absence_time_list.extend(new_absence_time_list)
+        self.time = self.time + len(inserted_absence_time_list)
+        self.absence_time_list.extend(inserted_absence_time_list)
 
     def set_last_datetime(
         self, last_datetime, unit_timedelta=None, set_init_datetime=True
